@@ -1,11 +1,21 @@
 // C07 (tracked state = fold of feedback messages + optimistic user commands) and
 // C08 (train presence / position / orientation agree with segment address lists).
 #include "common.h"
+#include <set>
 #include "cfggen.h"
 #include "apiops.h"
 #include "statemodel.h"
 
 namespace {
+
+// command messages (MSG_CS_DRIVE 0x64, MSG_CS_ACCESSORY 0x65) the library reports as held back and not yet released (its own debug log lines)
+static int g_held_cmds = 0;
+static void held_syslog_hook(int, const char *msg) {
+	const char *p;
+	if ((p = strstr(msg, "Enqueued type: 0x6")) && (p[18] == '4' || p[18] == '5')) g_held_cmds++;
+	else if ((p = strstr(msg, "Dequeued type: 0x6")) && (p[18] == '4' || p[18] == '5')) { if (g_held_cmds > 0) g_held_cmds--; }
+	else if (strstr(msg, "Node state table reset") || strstr(msg, "held messages forgotten")) g_held_cmds = 0;
+}
 
 struct LockEv { int task; uint64_t step; };
 static std::vector<LockEv> *g_seg_log = nullptr;
@@ -215,7 +225,8 @@ struct StateProp : Prop {
 
 	sm::Model model;
 	size_t wire_pos = 0, frame_pos = 0, ops_pos = 0;
-	uint64_t checks = 0, corrupted_seen = 0, span2 = 0, shared2 = 0, snapshot_checks = 0, snapshot_skipped = 0;
+	std::multiset<std::string> applied_early; uint64_t held_applied_early = 0;
+	uint64_t compares_skipped_held = 0, checks = 0, corrupted_seen = 0, span2 = 0, shared2 = 0, snapshot_checks = 0, snapshot_skipped = 0;
 	std::vector<LockEv> seg_log;
 	int receiver = -1;
 
@@ -224,6 +235,7 @@ struct StateProp : Prop {
 		wire_pos = frame_pos = ops_pos = 0; checks = corrupted_seen = span2 = shared2 = snapshot_checks = snapshot_skipped = 0; seg_log.clear(); receiver = -1;
 		vers.clear(); pending_reads.clear(); reader_results_judged = reader_results_overlapping_update = segment_results_judged = snapshot_order_judged = 0; before_wire = nullptr; started = reset_pending = false; resets_folded = 0; reset_wire_from = 0;
 		g_seg_log = &seg_log; sim::hooks().on_lock = seg_lock_hook;
+		g_held_cmds = 0; compares_skipped_held = 0; applied_early.clear(); held_applied_early = 0; sim::hooks().on_syslog = held_syslog_hook;
 	}
 	void before_stop(Engine &, int) override { g_seg_log = nullptr; sim::hooks().on_lock = nullptr; }
 
@@ -242,6 +254,8 @@ struct StateProp : Prop {
 				// a reset issued by the application: the library wipes its track state after the 1.5 s login wait, right before it reads the node table
 				if (wm.type == MSG_SYS_RESET && started) reset_pending = true;
 				else if (reset_pending && wm.type == MSG_NODETAB_GETALL) { reset_pending = false; model.reset_state(); model.set_connected_from_tree(e.bus); resets_folded++; reset_wire_from = wire_pos; }
+				// (a low-level command whose effect was applied when the call returned because the library was holding the message back)
+				{ auto ae = applied_early.find(pc::msg_key(wm)); if (ae != applied_early.end()) { applied_early.erase(ae); wire_pos++; continue; } }
 				model.apply_downlink(wm); wire_pos++;
 			}
 			else {
@@ -366,6 +380,13 @@ struct StateProp : Prop {
 			if (vers.empty()) { ingest(e); Ver v; v.pos = presence_now(); v.seg = segs_now(); vers.push_back(v); }
 			pending_reads.push_back(PendingRead{o.op->gets("fn"), (*o.op)["s"][0].str(), o.result, o.inv_step, o.ret_step});
 		}
+		if (k == "ll" && (o.op->gets("fn") == "cs_drive" || o.op->gets("fn") == "cs_accessory")) {
+			// the optimistic update does not wait for the transmission: a command that is held back takes effect in the model now, not when it is released
+			ingest(e);
+			ref::Msg want = pc::ll_expected(*o.op); std::string key = pc::msg_key(want); bool on_wire = false;
+			for (size_t i = o.wire_before; i < e.bus.wire.size(); i++) if (pc::msg_key(e.bus.wire[i].msg) == key) on_wire = true;
+			if (!on_wire && g_held_cmds > 0) { model.apply_downlink(want); applied_early.insert(key); g_held_cmds--; held_applied_early++; }
+		}
 		if (k == "hl" && o.ret == 0) {
 			const std::string &fn = o.op->gets("fn");
 			const J &s = (*o.op)["s"];
@@ -390,6 +411,10 @@ struct StateProp : Prop {
 	J lib_state() { sim::ApiScope api("bidib_get_state"); return getters::call("state", {}, J::arr()); }
 
 	void compare(Engine &e, const char *when) {
+		// A drive / accessory command that the library is holding back (response budget of the addressee blocked, e.g. by requests a node left
+		// unanswered when it was lost) has already changed the tracked state - the optimistic update does not wait for the transmission - but is not
+		// on the wire yet, which is where the model takes commands from. Such moments are not compared (counted).
+		if (g_held_cmds > 0) { compares_skipped_held++; return; }
 		J got = lib_state();
 		J want = model.to_json();
 		// orientation: when the listings disagree any reported one is acceptable
@@ -454,7 +479,7 @@ struct StateProp : Prop {
 		f.set("nontrivial", is_c08 ? (span2 > 0 || shared2 > 0) : (model.unknown_targets > 0 && model.list_valued > 0));
 		f.set("shape", (long long) (pc::shape_hash(e.plan) >> 1));
 		J p = J::obj(); p.set("state_comparisons", (long long) checks); p.set("unknown_target_messages", (long long) model.unknown_targets); p.set("list_valued_messages", (long long) model.list_valued);
-		if (!is_c08) p.set("corrupted_copies_delivered", (long long) corrupted_seen); p.set("application_resets_folded", (long long) resets_folded); p.set("topology_notices", (long long) topo_events);
+		if (!is_c08) p.set("corrupted_copies_delivered", (long long) corrupted_seen); p.set("application_resets_folded", (long long) resets_folded); if (compares_skipped_held) p.set("comparisons_skipped_while_a_command_was_held_back", (long long) compares_skipped_held); if (held_applied_early) p.set("held_back_low_level_commands_applied_at_call_time", (long long) held_applied_early); p.set("topology_notices", (long long) topo_events);
 		if (is_c08) { p.set("train_spanning_two_segments", (long long) span2); p.set("segment_with_two_addresses", (long long) shared2); p.set("consistent_snapshots_checked", (long long) snapshot_checks); p.set("concurrent_presence_results_judged", (long long) reader_results_judged); p.set("concurrent_presence_results_overlapping_an_update", (long long) reader_results_overlapping_update); p.set("snapshots_overlapping_an_update", (long long) snapshot_skipped); p.set("concurrent_segment_state_results_judged", (long long) segment_results_judged); p.set("snapshots_overlapping_updates_judged_for_order", (long long) snapshot_order_judged); }
 		f.set("probes", p);
 	}
